@@ -429,6 +429,12 @@ func cmdCheck(args []string) int {
 				fmt.Printf("VIOLATION property=%s replay=%s obligation=%s\n", *prop, path, r.O.Name)
 				violations++
 				exit = 1
+			} else if lost := lostCover(r.O.Func, coversBad, baseline); lost != "" {
+				// the new operation can fail on inputs for which a clause of the function's contract promises a
+				// normal return: that clause was exercisable on the pinned tree and no longer is
+				fmt.Printf("VIOLATION property=%s replay=%s obligation=%s (cuts off %s) no-failing-input-found\n", *prop, path, r.O.Name, lost)
+				violations++
+				exit = 1
 			} else {
 				fmt.Printf("UNDECIDED-NEW property=%s obligation=%s (not in baseline; no reproducing replay)\n", *prop, r.O.Name)
 			}
@@ -515,6 +521,16 @@ func flagWasSet(fs *flag.FlagSet, name string) bool {
 		}
 	})
 	return set
+}
+
+// lostCover names a reachability obligation of fn that held on the pinned tree and fails now.
+func lostCover(fn string, coversBad []*oblResult, baseline map[string]bool) string {
+	for _, c := range coversBad {
+		if c.O.Func == fn && baseline[c.O.Name] && c.V.Status == "unsat" {
+			return c.O.Name
+		}
+	}
+	return ""
 }
 
 func isSafetyKind(k string) bool {
